@@ -535,6 +535,9 @@ func (c *Context) onRestart(message *RestartMessage, behavior vivid.Behavior) {
 
 func (c *Context) onKill(message *vivid.OnKill, behavior vivid.Behavior) {
 	if !c.zombie && !atomic.CompareAndSwapInt32(&c.state, running, killing) {
+		// 正在重启且仍在等待子 Actor 终止时收到终止指令：放弃重启，待子 Actor 终止后直接终止。
+		// 否则该指令会被忽略，重启完成后 Actor 继续存活，而其（正在终止的）父级将永远等不到它的终止
+		c.restarting = nil
 		return
 	}
 	c.doKill(message, behavior)
